@@ -37,7 +37,7 @@ ANCHORS = [
 ]
 REQUIRED = ["q:aggregate_current", "q:aggregate_power", "q:constraint_currents", "q:constraint_currents_reordered",
             "q:constraint_currents_duplicates", "q:energy", "q:demands_met", "q:demands_met_threshold_below_full_cut_discriminating", "q:unbalance", "q:unbalance_nan_positions",
-            "q:datetimes", "runs_longer_than_8192_periods", "q:datetimes_partial_run", "analysis_called_mid_run_then_run_resumed", "q:cost_under_an_explicit_tariff_other_than_the_simulations_own", "stochastic_network_runs_judged", "stochastic_runs_with_never_served_sessions", "regime:hetero-voltage", "regime:mixed-sign", "regime:constraint-free"]
+            "q:datetimes", "runs_longer_than_8192_periods", "q:datetimes_partial_run", "analysis_called_mid_run_then_run_resumed", "analysis_called_before_the_run", "q:cost_under_an_explicit_tariff_other_than_the_simulations_own", "stochastic_network_runs_judged", "stochastic_runs_with_never_served_sessions", "regime:hetero-voltage", "regime:mixed-sign", "regime:constraint-free"]
 BUDGET_S = {"quick": 240, "thorough": 3000}
 
 
@@ -165,6 +165,24 @@ def run_case(case, obs):
             return orig_run()
 
         sim.scheduler.run = flaky
+        if rng.random() < 0.5:
+            # ... and on the simulator that has not run at all yet (a dashboard drawn before the start)
+            obs.ev("analysis_called_before_the_run")
+            with warnings.catch_warnings():
+                warnings.simplefilter("ignore")
+                for fn in (acnsim.aggregate_current, acnsim.aggregate_power, acnsim.constraint_currents, acnsim.datetimes_array,
+                           acnsim.total_energy_delivered, acnsim.total_energy_requested, acnsim.proportion_of_energy_delivered,
+                           acnsim.proportion_of_demands_met):
+                    try:
+                        r_ = fn(sim)
+                        if isinstance(r_, np.ndarray) and r_.dtype.kind == "f":
+                            r_[...] = -4.25
+                        elif isinstance(r_, dict):
+                            for v_ in r_.values():
+                                if isinstance(v_, np.ndarray):
+                                    v_[...] = -4.25
+                    except Exception:
+                        pass
         probe.run()
         if st_["fired"] and isinstance(probe.exception, _Pause):
             obs.ev("analysis_called_mid_run_then_run_resumed")
